@@ -24,6 +24,16 @@
      Tf     transform_up / transform_down / rotate_up / rotate_down are the exact lattice
             maps (bit-exact for translations and signed permutations, within 1e-9 for
             Pythagorean rotations), down o up = identity.
+     MDet MMul MVec MTr MRot MRotAx MOrtho   orange/MatrixUtils on integer / quarter-turn /
+            Pythagorean inputs: determinant, trace, gemm and gemv (plain and transposed, int and
+            real, 3x3 and 4x4), make_transpose, make_rotation (cartesian axis, arbitrary axis,
+            applied to a matrix), orthonormalize -- TLC computes every expected matrix itself.
+     TfComp TfInv TfSimp TfTol   apply_transform(transform, transform) maps p to L(R(p)) exactly;
+            calc_inverse / from_inverse invert; TransformSimplifier and Translation ->
+            Transformation promotion act identically on every lattice point; a tiny rotation is
+            simplified away only within the documented tolerance.
+     SPerm SPermQ   SignedPermutation over all 216 sign/axis assignments (constructible iff one
+            of the 24 rotations), storage layout, round trips, make_permutation.
 
    Named deviation (counted in dev, never hidden):
      TranslatorSimpleQuadricConstTerm (finding F-SURF-1): SimpleQuadric through the pure
@@ -187,11 +197,140 @@ TTf ==
   /\ ncase' = ncase + 3 * Len(Rec.pts) + 2 * Len(Rec.dirs)
   /\ dev' = dev
 
+\* ------------------------------------------------------------------ matrix utilities
+\* (orange/MatrixUtils on integer inputs: TLC owns the algebra.  x: every logged value was an
+\* exact integer; b: within 1e-9 of the integer)
+IsSq(A, n) == Len(A) = n /\ \A i \in 1..n : Len(A[i]) = n
+MDetOK(rec) ==
+  /\ IsSq(rec.A, 3) /\ rec.x
+  /\ rec.det = Det(rec.A) /\ rec.tr = Trace3(rec.A)
+MMulOK(rec) ==
+  /\ rec.n \in {3, 4} /\ IsSq(rec.A, rec.n) /\ IsSq(rec.B, rec.n) /\ rec.x
+  /\ rec.AB = MatMul(rec.A, rec.B)
+  /\ rec.AtB = MatMul(Transpose(rec.A), rec.B)
+MVecOK(rec) ==
+  /\ IsSq(rec.A, 3) /\ rec.x
+  /\ rec.r = Gemv(rec.al, rec.A, rec.v, rec.be, rec.y)
+  /\ rec.rt = GemvT(rec.al, rec.A, rec.v, rec.be, rec.y)
+  /\ rec.s = MatVec(rec.A, rec.v)
+  /\ rec.st = TMatVec(rec.A, rec.v)
+MTrOK(rec) == IsSq(rec.A, 3) /\ rec.x /\ rec.T = Transpose(rec.A)
+\* make_rotation(Axis, Turn{q/4}) is EXACTLY the quarter-turn matrix (sincospi is exact at
+\* multiples of 1/2); with O: make_rotation(ax, turn, O) = R O (applied on the left)
+MRotOK(rec) ==
+  LET Q == QuarterRot(rec.ax + 1, rec.q) IN
+  /\ rec.ax \in 0..2 /\ rec.x
+  /\ IsTransform([R |-> Q, den |-> 1, t |-> Zero3]) /\ Det(Q) = 1
+  /\ rec.R = (IF "O" \in DOMAIN rec THEN MatMul(Q, rec.O) ELSE Q)
+\* make_rotation(n / m, Turn{q/4}): m^2 R is the integer Rodrigues matrix; (m^2 R)(m^2 R)^T = m^4 I
+MRotAxOK(rec) ==
+  LET W == RodriguesScaled(rec.n, rec.m, rec.q) IN
+  /\ rec.m > 0 /\ Dot(rec.n, rec.n) = rec.m * rec.m /\ rec.q \in 0..2 /\ rec.b
+  /\ IsTransform([R |-> W, den |-> rec.m * rec.m, t |-> Zero3]) /\ Det(W) = rec.m * rec.m * rec.m * rec.m * rec.m * rec.m
+  /\ MatVec(W, rec.n) = VScale(rec.m * rec.m, rec.n)           \* the axis is fixed
+  /\ rec.R = W
+\* orthonormalize(L R) = R / den for a lower triangular L with positive diagonal (uniqueness of
+\* the Gram-Schmidt factorisation)
+MOrthoOK(rec) ==
+  /\ IsTransform([R |-> rec.R, den |-> rec.den, t |-> Zero3])
+  /\ \A i, j \in 1..3 : (j > i => rec.L[i][j] = 0) /\ (j = i => rec.L[i][j] > 0)
+  /\ rec.M = MatMul(rec.L, rec.R)
+  /\ rec.b /\ rec.out = rec.R
+TMat ==
+  /\ Rec.e \in {"MDet", "MMul", "MVec", "MTr", "MRot", "MRotAx", "MOrtho"}
+  /\ (CASE Rec.e = "MDet" -> MDetOK(Rec)
+        [] Rec.e = "MMul" -> MMulOK(Rec)
+        [] Rec.e = "MVec" -> MVecOK(Rec)
+        [] Rec.e = "MTr" -> MTrOK(Rec)
+        [] Rec.e = "MRot" -> MRotOK(Rec)
+        [] Rec.e = "MRotAx" -> MRotAxOK(Rec)
+        [] Rec.e = "MOrtho" -> MOrthoOK(Rec)) = TRUE
+  /\ ncase' = ncase + 1
+  /\ dev' = dev
+
+\* ------------------------------------------------------------------ transform algebra
+Classes == {"No", "Translation", "Transformation"}
+OperandOK(o) ==
+  /\ o.cls \in Classes /\ IsTransform(o.T)
+  /\ o.cls = "No" => (IsTranslation(o.T) /\ o.T.t = Zero3)
+  /\ o.cls = "Translation" => IsTranslation(o.T)
+NoShift(T) == [R |-> T.R, den |-> T.den, t |-> Zero3]
+\* apply_transform(L, R) must map p to L(R(p)), its inverse map back, and rotate d to L(R(d));
+\* exact when both are lattice maps of denominator 1, within 1e-9 otherwise.
+\* (The class of the result is not constrained beyond being able to do that.)
+TfCompOK(rec) ==
+  LET L == rec.L.T  R == rec.R.T  ex == (L.den = 1 /\ R.den = 1) IN
+  /\ OperandOK(rec.L) /\ OperandOK(rec.R) /\ rec.out \in Classes
+  /\ \A i \in DOMAIN rec.pts :
+       LET pt == rec.pts[i] IN
+       /\ UpOK(R, pt.p) /\ pt.m = Up(R, pt.p)
+       /\ UpOK(L, pt.m) /\ pt.q = Up(L, pt.m)
+       /\ (ComposeOK(L, R) /\ L.den * R.den < 100) =>
+             (UpOK(Compose(L, R), pt.p) /\ Up(Compose(L, R), pt.p) = pt.q)       \* (spec: law)
+       /\ pt.up = pt.q /\ pt.upb /\ (ex => pt.upx)
+       /\ pt.dn = pt.p /\ pt.dnb /\ (ex => pt.dnx)
+  /\ \A i \in DOMAIN rec.dirs :
+       LET dd == rec.dirs[i] IN
+       /\ RotUpOK(R, dd.d) /\ RotUpOK(L, RotUp(R, dd.d)) /\ dd.r = RotUp(L, RotUp(R, dd.d))
+       /\ dd.ru = dd.r /\ dd.rub /\ (ex => dd.rux)
+\* calc_inverse / from_inverse: inverse . forward = identity, and the inverse's `down` is the
+\* forward map
+TfInvOK(rec) ==
+  LET T == rec.T.T  ex == (T.den = 1) IN
+  /\ OperandOK(rec.T) /\ rec.via \in {"calc_inverse", "from_inverse", "variant"}
+  /\ \A i \in DOMAIN rec.pts :
+       LET pt == rec.pts[i] IN
+       /\ UpOK(T, pt.p) /\ pt.q = Up(T, pt.p)
+       /\ InverseOK(T) => (UpOK(InverseT(T), pt.q) /\ Up(InverseT(T), pt.q) = pt.p)   \* (spec: law)
+       /\ pt.iu = pt.p /\ pt.iub /\ (ex => pt.iux)
+       /\ pt.id = pt.q /\ pt.idb /\ (ex => pt.idx)
+\* a simplified / promoted transform acts identically on every lattice point
+TfSimpOK(rec) ==
+  LET T == rec.T.T  ex == (T.den = 1) IN
+  /\ OperandOK(rec.T) /\ rec.op \in {"simplify", "promote"} /\ rec.out \in Classes
+  /\ rec.op = "promote" => (rec.T.cls = "Translation" /\ rec.out = "Transformation")
+  /\ \A i \in DOMAIN rec.pts :
+       LET pt == rec.pts[i] IN
+       /\ UpOK(T, pt.p) /\ pt.q = Up(T, pt.p)
+       /\ pt.up = pt.q /\ pt.upb /\ (ex => pt.upx)
+\* a rotation by k eps / 4 may only be simplified away if no point at unit distance moves by
+\* more than eps (documented criterion of TransformSimplifier)
+TfTolOK(rec) == rec.out \in Classes /\ rec.within /\ (rec.k >= 8 => rec.out = "Transformation")
+TTfx ==
+  /\ Rec.e \in {"TfComp", "TfInv", "TfSimp", "TfTol"}
+  /\ (CASE Rec.e = "TfComp" -> TfCompOK(Rec)
+        [] Rec.e = "TfInv" -> TfInvOK(Rec)
+        [] Rec.e = "TfSimp" -> TfSimpOK(Rec)
+        [] Rec.e = "TfTol" -> TfTolOK(Rec)) = TRUE
+  /\ ncase' = ncase + (IF Rec.e = "TfTol" THEN 1
+                       ELSE IF Rec.e = "TfComp" THEN 2 * Len(Rec.pts) + Len(Rec.dirs)
+                       ELSE IF Rec.e = "TfInv" THEN 2 * Len(Rec.pts) ELSE Len(Rec.pts))
+  /\ dev' = dev
+
+\* ------------------------------------------------------------------ signed permutations
+\* all 6^3 assignments: constructible iff a permutation of determinant +1 (24 of them); then the
+\* stored value is the documented bit layout, permutation() and the data() round trip return the
+\* input, rotate_up / transform_up are the matrix, rotate_down / transform_down its transpose
+SPermOK(rec) ==
+  LET M == SPermMat(rec.ax) IN
+  /\ rec.ok = SPermValid(rec.ax)
+  /\ rec.ok =>
+       /\ rec.x /\ rec.val = SPermValue(rec.ax) /\ rec.rt = rec.val /\ rec.perm = rec.ax
+       /\ rec.up = M /\ rec.tup = M /\ rec.dn = Transpose(M) /\ rec.tdn = Transpose(M)
+\* make_permutation(Axis, QuarterTurn q) is the quarter-turn rotation (the matrix make_rotation
+\* gives for Turn{q/4})
+SPermQOK(rec) == rec.ok /\ rec.x /\ rec.up = QuarterRot(rec.ax + 1, rec.q)
+TSPerm ==
+  /\ Rec.e \in {"SPerm", "SPermQ"}
+  /\ (IF Rec.e = "SPerm" THEN SPermOK(Rec) ELSE SPermQOK(Rec)) = TRUE
+  /\ ncase' = ncase + 1
+  /\ dev' = dev
+
 Init == l = 1 /\ dev = 0 /\ ncase = 0
 Next ==
   /\ l <= Len(TraceLog)
   /\ l' = l + 1
-  /\ \/ TSurf \/ TXform \/ TSimp \/ TTf
+  /\ \/ TSurf \/ TXform \/ TSimp \/ TTf \/ TMat \/ TTfx \/ TSPerm
 Spec == Init /\ [][Next]_vars
 
 Accepted ==
